@@ -4,6 +4,7 @@
 pub mod arch;
 pub mod binfam;
 pub mod c02judge;
+pub mod c03sys;
 pub mod fsx;
 pub mod glue;
 pub mod lzfam;
